@@ -74,6 +74,18 @@ fn judge(c: &dyn BoxCase, l: &mut Local) {
             }
         }
     }
+    // ---- the reference bytes through a stream that transfers 1 / 3 bytes per read call: same value, same end position
+    {
+        let rb = c.ref_bytes(false);
+        for k in [1usize, 3] {
+            l.transitions += 1;
+            match c.lib_decode_eq_trickle(&rb, k) {
+                Ok((true, pos, _)) if pos == rb.len() as u64 => {}
+                Ok((eq, pos, _)) => l.violations.push(mk("decode_through_short_reads_differs").obs(json!({"bytes_per_read": k, "equal": eq, "position": pos, "len": rb.len()}))),
+                Err(e) => l.violations.push(mk("decode_through_short_reads_failed").obs(json!({"bytes_per_read": k, "error": e}))),
+            }
+        }
+    }
     // ---- converse: accepted bytes whose re-encoding succeeds re-decode to the same value
     for large in [false, true] {
         let rb = c.ref_bytes(large);
